@@ -62,7 +62,7 @@ def extract(iname, dt=1.0, t0=0.0):
 
 
 def setup(ctx):
-    ctx.require(*["tableau:" + n for n in gen.EXPLICIT], *["rkness:" + n for n in gen.EXPLICIT], *["order:" + n for n in gen.EXPLICIT], "rkness-zero-first-stage")
+    ctx.require(*["tableau:" + n for n in gen.EXPLICIT], *["rkness:" + n for n in gen.EXPLICIT], *["order:" + n for n in gen.EXPLICIT], "rkness-zero-first-stage", "rkness-after-previous-step")
 
 
 def _order_conditions(A, b, p):
@@ -168,6 +168,13 @@ def rkness(ctx, rng, idx):
         ctx.describe(integrator=iname, rhs="random nonlinear", localdt=localdt, dt=dt, y0=f0.data[0], t0=f0.time, **fdesc)
     solver = gen.integ(iname)(mesh, disc)
     f = f0.copy()
+    if (idx // (3 * len(gen.EXPLICIT))) % 2 == 1:
+        # the SAME integrator object has already taken a step (other dt, scalar <-> array): nothing may be remembered from it
+        pre = f0.copy()
+        dtpre = (np.full(np.shape(f0.data[0])[-1], float(np.min(dt)) * 0.37) if np.ndim(dt) == 0 else float(np.min(dt)) * 1.9)
+        solver.step(pre, dtpre)
+        del disc.calls[:]
+        ctx.ev("rkness-after-previous-step")
     solver.step(f, dt)
     calls = disc.calls
     ctx.true("ncalls", len(calls) == s, "rkness/%s/stage-count" % iname, {"calls": len(calls)}, cls=cls)
